@@ -10,6 +10,8 @@
 #include <fcntl.h>
 #include <sys/stat.h>
 #include <sys/types.h>
+#include <dirent.h>
+#include <ctime>
 #include <GeographicLib/Geoid.hpp>
 #include <GeographicLib/Math.hpp>
 #include <GeographicLib/DMS.hpp>
@@ -32,6 +34,18 @@ static std::string tmpdir() {
   if (d.empty()) {
     const char* b = std::getenv("GV_SCRATCH"); std::string base = (b && *b) ? b : "/tmp";
     for (size_t i = 1; i <= base.size(); ++i) if (i == base.size() || base[i] == '/') mkdir(base.substr(0, i).c_str(), 0777);
+    // remove scratch directories that an aborted run left behind (older than two hours)
+    if (DIR* dp = opendir(base.c_str())) {
+      time_t now = time(nullptr);
+      while (dirent* e = readdir(dp)) {
+        std::string n = e->d_name; if (n.compare(0, 7, "gvgeoid") != 0) continue;
+        std::string p = base + "/" + n; struct stat st;
+        if (::stat(p.c_str(), &st) != 0 || !S_ISDIR(st.st_mode) || now - st.st_mtime < 7200) continue;
+        if (DIR* dq = opendir(p.c_str())) { while (dirent* f = readdir(dq)) { std::string fn = f->d_name; if (fn != "." && fn != "..") { std::string q = p + "/" + fn; if (::unlink(q.c_str()) != 0) ::rmdir(q.c_str()); } } closedir(dq); }
+        ::rmdir(p.c_str());
+      }
+      closedir(dp);
+    }
     std::string t = base + "/gvgeoidXXXXXX"; std::vector<char> buf(t.begin(), t.end()); buf.push_back(0);
     char* r = mkdtemp(buf.data()); d = r ? r : "/tmp";
   }
